@@ -1,6 +1,7 @@
 package driver
 
 import (
+	"os/exec"
 	"fmt"
 	"os"
 	"time"
@@ -23,6 +24,27 @@ func budgetSeconds(tier string, quick, thorough int) time.Duration {
 
 var simrunAsm = Variant{Name: "asm", Pkg: "./cmd/simrun", Tags: "verif"}
 var simrunPurego = Variant{Name: "purego", Pkg: "./cmd/simrun", Tags: "verif,purego"}
+
+// simStall is the stall world: a test binary built with the newer toolchain
+// of the sandbox, because it runs the signers inside testing/synctest bubbles
+// (fake clock, quiescence detection).
+var simStall = Variant{Name: "asm-go1.26", Pkg: "./sim/worlds/stall", Tags: "verif", Go: "go1.26.8", TestBin: true}
+
+// buildStall builds the stall world, or explains why it cannot run here.
+func (e *Env) buildStall() (string, string) {
+	if _, err := exec.LookPath(simStall.Go); err != nil {
+		Logf("the stall world needs %s (testing/synctest), which is not on PATH: skipped", simStall.Go)
+		return "", "skipped: " + simStall.Go + " is not on PATH"
+	}
+	bin, err := e.Build(simStall)
+	if err != nil {
+		// the harness builds with the default toolchain; if only the newer
+		// one rejects the tree that is reported, not turned into a verdict
+		Logf("the stall world does not build with %s: skipped\n%v", simStall.Go, err)
+		return "", "skipped: does not build with " + simStall.Go
+	}
+	return bin, "ran"
+}
 
 // samplesFrom extracts a few written-out histories.
 func samplesFrom(results []*kernel.Result, max int) []any {
@@ -111,6 +133,14 @@ func CheckSign(e *Env, prop string) (int, error) {
 	if err := e.RefSelfTest(bin); err != nil {
 		return 2, err
 	}
+	stallBin, stallState := "", "not part of this property"
+	if prop == "C09" || prop == "C14" {
+		stallBin, stallState = e.buildStall()
+	}
+	stallRuns := 4000
+	if e.Tier == "thorough" {
+		stallRuns = 64000
+	}
 	a := newAgg()
 	budget := budgetSeconds(e.Tier, 45, 840)
 	perJob, perRound := 25, 16*25
@@ -129,6 +159,10 @@ func CheckSign(e *Env, prop string) (int, error) {
 			if prop == "C14" {
 				jobs = append(jobs, SplitRuns(bin, "asm", "pool", prop, 0, 4000, 1000)...)
 			}
+			if stallBin != "" {
+				// signers whose entropy reader stalls, under a simulated clock
+				jobs = append(jobs, SplitRuns(stallBin, simStall.Name, "stall", prop, 0, stallRuns, stallRuns/16)...)
+			}
 			return jobs
 		}
 		jobs = SplitRuns(bin, "asm", "sign", prop, round*perRound, perRound, perJob)
@@ -143,7 +177,12 @@ func CheckSign(e *Env, prop string) (int, error) {
 	if err != nil {
 		return 2, err
 	}
-	out, err := e.conclude(prop, a, func(r *kernel.Result) (string, string) { return bin, "asm" }, budgetSeconds(e.Tier, 60, 300))
+	out, err := e.conclude(prop, a, func(r *kernel.Result) (string, string) {
+		if r.World == "stall" {
+			return stallBin, simStall.Name
+		}
+		return bin, "asm"
+	}, budgetSeconds(e.Tier, 60, 300))
 	if err != nil {
 		return 2, err
 	}
@@ -160,9 +199,10 @@ func CheckSign(e *Env, prop string) (int, error) {
 		rule += " For C14, (c) seeded pool-world call histories (<= 80 API calls over a mutable object pool, tuned to Schnorr key construction from byte strings, ECDSA keys and pool points in re-randomised projective representatives) are counted among the sampled histories; every derived Schnorr key is judged against the model."
 	}
 	cov := map[string]any{
-		"evaluations":                           a.ByWorld["sign"] + a.ByWorld["pool"] + a.EnumCases,
+		"evaluations":                           a.ByWorld["sign"] + a.ByWorld["pool"] + a.ByWorld["stall"] + a.EnumCases,
 		"distinct_nontrivial":                   sampledNontrivial + a.EnumDistinctNontrivial,
-		"sampled_histories":                     a.ByWorld["sign"] + a.ByWorld["pool"],
+		"sampled_histories":                     a.ByWorld["sign"] + a.ByWorld["pool"] + a.ByWorld["stall"],
+		"stall_world":                           map[string]any{"state": stallState, "runs": a.ByWorld["stall"], "simulated_clock_ms": a.StallMS, "what": "one signing call per run inside a testing/synctest bubble (go1.26.8): the entropy reader delivers 0..31 bytes in short reads and then blocks for 1 s .. 1000 h of simulated time before failing; the signer is looked at after 1 ms / 5 s / 10 min of simulated time and must still be waiting, and must fail with its reader afterwards. Every timer the library arms reads the fake clock."},
 		"sampled_distinct_nontrivial_histories": sampledNontrivial,
 		"enumerated_distinct_nontrivial_cases":  a.EnumDistinctNontrivial,
 		"rule":                                  rule,
